@@ -228,6 +228,71 @@ func runC02(env *Env, rc *RunCtx) {
 			desc(map[string]any{"schedule_request_depth": a1.trace, "schedule_global_eff": b1.trace, "entry_point": mkReq(0)[0].Kind}), e, &Tape{Rec: as[e].tape})
 		return
 	}
+	// Depth sweep (one case in three): the same comparison for up to three more
+	// request depths in 1..g, one execution each - the depth at which a limit
+	// starts to bind is the interesting one, and a single random r rarely hits it.
+	if t.Bool(1, 3) && g >= 2 {
+		var extra []int
+		for _, x := range []int{1, 2, 3, g - 1, g} {
+			dup := x == r || x < 1 || x > g
+			for _, y := range extra {
+				if y == x {
+					dup = true
+				}
+			}
+			if !dup && len(extra) < 3 {
+				extra = append(extra, x)
+			}
+		}
+		for idx, r2 := range extra {
+			e := 100 + idx
+			if rc.SkipExec(e) {
+				continue
+			}
+			et := rc.ExecTape(e)
+			env.SetLimitsCached(Limits{Depth: g, Width: w})
+			resA := env.Exec(et, mkReq(r2), NoFaults())
+			rc.Rec.Execs++
+			if !resA.Returned || len(resA.Outs) != 1 {
+				continue
+			}
+			a1 := obs{out: resA.Outs[0], trace: fmt.Sprint(resA.Trace)}
+			rec := et.Recorded()
+			seed := Mix(rc.execSeed, 98, uint64(e))
+			env.SetLimitsCached(Limits{Depth: r2, Width: w})
+			b1, ok := runOnce(0, rec, seed)
+			if !ok {
+				continue
+			}
+			rc.Count("sweep_pairs", 1)
+			if same(a1, b1) {
+				continue
+			}
+			consistent := true
+			for i := 0; i < 2 && consistent; i++ {
+				bi, ok := runOnce(0, rec, seed)
+				consistent = ok && same(bi, b1)
+			}
+			env.SetLimitsCached(Limits{Depth: g, Width: w})
+			for i := 0; i < 2 && consistent; i++ {
+				ai, ok := runOnce(r2, rec, seed)
+				consistent = ok && same(ai, a1)
+			}
+			if !consistent {
+				rc.Count("inconclusive_unseedable_select", 1)
+				continue
+			}
+			what := "decision"
+			if a1.out.Membership == b1.out.Membership && (a1.out.Err == "") == (b1.out.Err == "") {
+				what = "storage-trace"
+			}
+			d := desc(map[string]any{"schedule_request_depth": a1.trace, "schedule_global_eff": b1.trace, "entry_point": mkReq(0)[0].Kind, "swept_request_depth": r2})
+			rc.Violate("request-depth", what,
+				fmt.Sprintf("(request %d, global %d) gave %v; (request 0, global %d) gave %v (consistently, 3 executions each)", r2, g, a1.out, r2, b1.out), d, e, &Tape{Rec: rec})
+			return
+		}
+		env.SetLimitsCached(Limits{Depth: g, Width: w})
+	}
 	if r <= 0 {
 		rc.Count("probe_request_depth_nonpositive", 1)
 	} else if r > g {
